@@ -565,4 +565,7 @@ def jobs(tier, seed):
       out.append(Job('%s_%dx%d' % (which.strip('_'), r, c), matrix_rank,
                      dict(rows=r, cols=c, which=which), timeout=3000,
                      cost=2**(r + c - 5)))
+  from harness import selftest  # pylint: disable=g-import-not-at-top
+  out += [Job('engine_selftest_%s' % w, selftest.validate, dict(which=w),
+              timeout=900, cost=5) for w in ('bits',)]
   return out
